@@ -661,6 +661,12 @@ impl DhtHandler {
         self.refresh.action_id()
     }
 
+    /// The action ids the generator will hand out next (the rest of its current block).
+    pub(crate) fn verif_upcoming_action_ids(&self) -> Vec<u64> {
+        let (_, index, ids) = self.aid_generator.verif_state();
+        ids[index.min(ids.len())..].to_vec()
+    }
+
     pub(crate) async fn verif_refresh(&mut self) {
         self.handle_check_table_refresh().await
     }
